@@ -146,9 +146,16 @@ impl RelayMap {
 
     /// Extends this `RelayMap` with another one.
     pub fn extend(&self, other: &RelayMap) {
-        let mut a = self.relays.write().expect("poisoned");
-        let b = other.relays.read().expect("poisoned");
-        a.extend(b.iter().map(|(a, b)| (a.clone(), b.clone())));
+        // `other` may be a clone sharing this map's lock: release its read lock
+        // before taking the write lock.
+        let other: Vec<_> = other
+            .relays
+            .read()
+            .expect("poisoned")
+            .iter()
+            .map(|(a, b)| (a.clone(), b.clone()))
+            .collect();
+        self.relays.write().expect("poisoned").extend(other);
     }
 
     /// Sets an authorization token for all relays configured in this relay map.
